@@ -1,10 +1,10 @@
-\* behaviours for T->I replay (tlc -simulate): histories of the reference planner over the thorough universe
+\* behaviours for T->I replay (tlc -simulate): histories of the reference planner over the quick universe, up to 3 entries
 SPECIFICATION Spec
 CONSTANTS
   MaxUpdates = 3
   MaxEntries = 3
   KeepOrder = "forward"
-  Size = "thorough"
+  Size = "quick"
   StartRootfs = FALSE
 CHECK_DEADLOCK FALSE
 INVARIANTS
